@@ -35,8 +35,12 @@ var ErrNotRegularFile = errors.New("not regular file")
 // ErrNotDirectory is returned when the path is not a directory.
 var ErrNotDirectory = errors.New("not directory")
 
-// IsValidFileName checks if a file name is cross-platform compatible
+// IsValidFileName checks if a file name is cross-platform compatible.
+// The special path elements "." and ".." are not file names.
 func IsValidFileName(fileName string) bool {
+	if fileName == "." || fileName == ".." {
+		return false
+	}
 	return regexp.MustCompile(`^[a-zA-Z0-9_.-]+$`).MatchString(fileName)
 }
 
